@@ -38,7 +38,11 @@ def norm_params(mp):
 
 
 def observed_tables(p, prop):
-    """-> list of (mother, [ {bf, fs, photos, model, params} ])  via the anchored accessors."""
+    """-> list of (mother, [ {bf, fs, photos, model, params} ]).  Uses the accessors the properties are anchored in
+    (_find_decay_modes/_decay_mode_details); if a refactoring removes those private names, the same information is
+    taken from the public queries instead (observed_tables_public) -- a missing private name is not a violation."""
+    if not (hasattr(p, "_find_decay_modes") and hasattr(p, "_decay_mode_details")):
+        return observed_tables_public(p, prop)
     out = []
     with impl(prop, "tables"):
         mothers = list(p.list_decay_mother_names())
@@ -61,6 +65,36 @@ def observed_tables(p, prop):
                     "model": no_kw["model"],
                     "params": norm_params(no_kw["model_params"]),
                 })
+            out.append((m, lines))
+    return out
+
+
+def observed_tables_public(p, prop):
+    """Public route: list_decay_modes (daughters), build_decay_chains with every daughter stable (bf, model, parameters),
+    print_decay_modes (PHOTOS keyword; rows are matched to lines through the documented descending, tie-stable order)."""
+    import re as _re
+
+    out = []
+    with impl(prop, "tables(public)"):
+        seen = set()
+        for m in list(p.list_decay_mother_names()):
+            if m in seen:
+                out.append((m, out[[x for x, _ in out].index(m)][1]))
+                continue
+            seen.add(m)
+            fss = [list(fs) for fs in p.list_decay_modes(m)]
+            stable = {d for fs in fss for d in fs}
+            modes = p.build_decay_chains(m, stable_particles=stable)[m]
+            lines = [{"bf": d["bf"], "fs": list(d["fs"]), "photos": False, "model": d["model"], "params": norm_params(d["model_params"])} for d in modes]
+            if lines:
+                buf = io.StringIO()
+                with contextlib.redirect_stdout(buf):
+                    p.print_decay_modes(m, print_model=True, display_photos_keyword=True)
+                rows = [r for r in buf.getvalue().split("\n") if r.strip()]
+                order = sorted(range(len(lines)), key=lambda i: -lines[i]["bf"])
+                for i, r in zip(order, rows):
+                    fields = [x for x in _re.split(r" {2,}", r.strip().rstrip(";")) if x]
+                    lines[i]["photos"] = any(f.startswith("PHOTOS ") or f == "PHOTOS" for f in fields[1:])
             out.append((m, lines))
     return out
 
